@@ -72,7 +72,9 @@ impl Check for RtcConvergence {
         let n_pfx = rng.range(2, if thorough { 6 } else { 4 });
         let roles: &[u64] = &[0, 0, 1, 2];
         let sources: Vec<Json> = (0..n_src).map(|_| jobj! {"role" => *rng.pick(roles), "send_max" => 1u64, "addpath_rx" => rng.chance(1, 5), "ext_msg" => true}).collect();
-        let observers: Vec<Json> = (0..n_obs).map(|_| jobj! {"role" => *rng.pick(roles), "send_max" => *rng.pick(&[1u64, 1, 1, 2]), "addpath_rx" => false, "ext_msg" => rng.coin()}).collect();
+        // a third of the observers negotiated graceful restart: when such a session is reset, the daemon keeps
+        // the observer's RT-membership routes as stale and goes on filtering with them
+        let observers: Vec<Json> = (0..n_obs).map(|_| jobj! {"role" => *rng.pick(roles), "send_max" => *rng.pick(&[1u64, 1, 1, 2]), "addpath_rx" => false, "ext_msg" => rng.coin(), "gr" => if rng.chance(1, 3) { jarr![5u64, false] } else { Json::Null }}).collect();
         let src_roles: Vec<Role> = sources.iter().map(|s| Role::from_u(s.i("role", 0) as u64)).collect();
         let en_win = rng.chance(2, 3);
         let en_wild = rng.chance(1, 3);
@@ -84,8 +86,23 @@ impl Check for RtcConvergence {
         for _ in 0..n_ops {
             let s = rng.usize_below(n_src);
             let o = rng.usize_below(n_obs);
-            match rng.weighted(&[30, 10, 22, if en_win { 10 } else { 0 }, 4, 4, 6, 3, if eor_at_once { 0 } else { 4 }, 3, 4]) {
+            match rng.weighted(&[30, 10, 22, if en_win { 10 } else { 0 }, 4, 4, 6, 3, if eor_at_once { 0 } else { 4 }, 3, 4, 4]) {
                 10 => ops.push(jarr!["rr", o, rng.coin()]),
+                11 => {
+                    ops.push(jarr!["odown", o, rng.coin()]);
+                    // what happens while the observer is away
+                    for _ in 0..rng.below(3) {
+                        if rng.coin() {
+                            let spec = gen_rspec(&mut rng, src_roles[s], asn_for(src_roles[s], s));
+                            let rts: Vec<Json> = (0..N_RT).filter(|_| rng.chance(2, 5)).map(Json::from).collect();
+                            ops.push(jarr!["ann", s, rng.below(n_pfx), 0u64, spec.to_json(), Json::Arr(rts)]);
+                        } else {
+                            ops.push(jarr!["wait", *rng.pick(&[100u64, 3000, 6000])]);
+                        }
+                    }
+                    // it may come back wanting something else
+                    ops.push(jarr!["oup", o, if rng.chance(1, 3) { Json::from(rng.below(N_RT)) } else { Json::Null }]);
+                }
                 0 => {
                     let spec = gen_rspec(&mut rng, src_roles[s], asn_for(src_roles[s], s));
                     // 0-2 route targets out of three
@@ -135,7 +152,7 @@ impl Check for RtcConvergence {
 
     fn info(&self) -> CheckInfo {
         CheckInfo {
-            rule: "1-2 source sessions (eBGP / iBGP / RR client, optional add-path towards the DUT) announce, replace and withdraw 2-6 VPNv4 prefixes carrying 0-2 of 3 route targets, crash (FIN / RST) and come back; 1-2 observers (eBGP / iBGP / RR client, send-max 1-2) negotiated RTC and VPNv4, announce and withdraw RT-membership routes (exact match for one of the 3 targets; the default membership in a third of the runs), send their RTC End-of-RIB at once, later or never (virtual waits up to 61 s cross the daemon's 60 s timer), are bounced, ask for the VPN table again (ROUTE-REFRESH) or are soft-reset outbound by the operator, and have their receive window opened and closed by the schedule; 1-3 shards. At check points: windows opened, a missing RTC End-of-RIB sent, quiescence; an identically configured twin connects, announces the observer's membership of that instant, sends its RTC End-of-RIB and is given its initial dump; the VPNv4 part of mirror(observer) must equal that of mirror(twin). non-trivial = a check compared a non-empty view or a membership / route change happened while a window was closed; distinct = hash of the seam-event sequence".into(),
+            rule: "1-2 source sessions (eBGP / iBGP / RR client, optional add-path towards the DUT) announce, replace and withdraw 2-6 VPNv4 prefixes carrying 0-2 of 3 route targets, crash (FIN / RST) and come back; 1-2 observers (eBGP / iBGP / RR client, send-max 1-2) negotiated RTC and VPNv4, announce and withdraw RT-membership routes (exact match for one of the 3 targets; the default membership in a third of the runs), send their RTC End-of-RIB at once, later or never (virtual waits up to 61 s cross the daemon's 60 s timer), are bounced, go away (FIN / RST; a third of them negotiated graceful restart, so that their membership is kept as stale routes) and come back wanting the same or something else, ask for the VPN table again (ROUTE-REFRESH) or are soft-reset outbound by the operator, and have their receive window opened and closed by the schedule; 1-3 shards. At check points: windows opened, a missing RTC End-of-RIB sent, quiescence; an identically configured twin connects, announces the observer's membership of that instant, sends its RTC End-of-RIB and is given its initial dump; the VPNv4 part of mirror(observer) must equal that of mirror(twin). non-trivial = a check compared a non-empty view or a membership / route change happened while a window was closed; distinct = hash of the seam-event sequence".into(),
             components_real: vec!["PeerSession::{handle_prefix_update, do_route_refresh, rtc_vpn_refresh_families, on_established, rx_update (RTC End-of-RIB)}, rtc::{RtcState, RtcFilter}, TableManager::{collect_rtc_paths, trigger_rtc_export}".into(), "export::process_nlri_change, ExportMap, peer_tx::PendingTx; the VPNv4 and RTC codecs both ways".into()],
             components_stubbed: vec!["TCP, clock, listener/dispatch loop, remote speakers".into()],
             assumptions: vec!["only the default membership and exact matches are used (the daemon treats an AS-wide membership like the default one; the statement does not say)".into()],
@@ -311,6 +328,56 @@ async fn run(case: Json, tol: Tolerate) -> Outcome {
                     t.settle().await;
                     t.connect(s, &PipeOpts::default(), &PipeOpts::default()).await;
                     out.hit("op.source-reconnect");
+                }
+            }
+            "odown" => {
+                let o = op.at(1).as_usize() % n_obs;
+                let node = n_src + o;
+                if t.nodes[node].spk.conn.is_some() {
+                    if op.at(2).as_bool() {
+                        t.nodes[node].spk.rst();
+                        out.hit("fault.observer-rst");
+                    } else {
+                        t.nodes[node].spk.close();
+                        out.hit("fault.observer-fin");
+                    }
+                    eor_sent[o] = false;
+                    t.settle().await;
+                    let addr = t.nodes[node].cfg.addr;
+                    if t.w.tables.collect_paths(table::TableQuery::AdjIn(addr), Family::RTC, vec![], true).iter().any(|d| d.paths.iter().any(|p| p.stale)) {
+                        out.hit("probe.membership-retained-as-stale-routes");
+                    }
+                }
+            }
+            "oup" => {
+                let o = op.at(1).as_usize() % n_obs;
+                let node = n_src + o;
+                if t.nodes[node].spk.conn.is_none() || !t.nodes[node].spk.established() {
+                    if t.nodes[node].spk.conn.is_some() {
+                        t.nodes[node].spk.close();
+                        t.settle().await;
+                    }
+                    if matches!(op.at(2), Json::Int(_)) {
+                        // a change of mind while away
+                        let k = op.at(2).as_u64() % N_RT;
+                        if !wants[o].remove(&k) {
+                            wants[o].insert(k);
+                        }
+                    }
+                    t.connect(node, &PipeOpts::default(), &PipeOpts::default()).await;
+                    eor_sent[o] = false;
+                    if t.nodes[node].spk.established() {
+                        let (role, asn) = (t.nodes[node].cfg.role, t.nodes[node].cfg.asn);
+                        for k in wants[o].clone() {
+                            t.nodes[node].spk.announce(Family::RTC, vec![membership(k, asn)], Some(bgp::Nexthop::V4(Ipv4Addr::new(10, 0, 2, o as u8 + 1))), rtc_attrs(role, asn));
+                        }
+                        if eor_at_once {
+                            t.nodes[node].spk.eor(Family::RTC);
+                            eor_sent[o] = true;
+                        }
+                        out.hit("op.observer-back");
+                    }
+                    t.settle().await;
                 }
             }
             "bounce" => {
